@@ -17,9 +17,11 @@ var props = map[string]func(*Ctx){
 	"C01": propC01,
 	"C02": propC02,
 	"C03": propC03,
+	"C04": propC04,
 	"C05": propC05,
 	"C06": propC06,
 	"C07": propC07,
+	"C08": propC08,
 	"C09": propC09,
 	"C10": propC10,
 	"C11": propC11,
